@@ -2,6 +2,7 @@ package main
 
 import (
 	"fmt"
+	"go/ast"
 	"go/constant"
 	"go/token"
 	"go/types"
@@ -205,6 +206,138 @@ func runR06_6(c *Ctx, r *R) {
 	}
 	if n == 0 {
 		r.Unk("mpx/teardown-codes", 0, "anchor lost: no teardown status classification found")
+	}
+}
+
+// R11.5: a frame's payload is read only under its code. pmpx.Message is a tagged union: Code() says which of
+// ConnectRequest / ConnectResponse / Batch / ChannelOpen / ChannelClose / ChannelData / ChannelWindow is meant, but
+// every payload accessor works on whatever bytes the peer put under its field tag. Each accessor call in package mpx
+// must be reached only with Code() of the same message compared equal to the matching Code_<Payload> constant -
+// in the function itself, or at every call site of the (unexported) function that receives the message. A peer
+// that sends code channel_data together with a connect_request field must not get a handshake out of it.
+func init() {
+	register(&Rule{ID: "R11.5", Props: []string{"C11", "C03"}, Floor: 16,
+		Doc: "payload under its code: every payload accessor of pmpx.Message in package mpx is dominated by Code() == Code_<Payload> of the same message (locally or at all call sites of the receiving helper)",
+		Run: runR11_5})
+}
+
+func runR11_5(c *Ctx, r *R) {
+	pp := c.Pkg("proto/pmpx")
+	if pp == nil {
+		r.Unk("proto/pmpx", 0, "package not loaded")
+		return
+	}
+	payloads := map[string]int64{}
+	for _, n := range []string{"ConnectRequest", "ConnectResponse", "Batch", "ChannelOpen", "ChannelClose", "ChannelData", "ChannelWindow"} {
+		if k, ok := pp.Types.Scope().Lookup("Code_" + n).(*types.Const); ok {
+			v, _ := constant.Int64Val(constant.ToInt(k.Val()))
+			payloads[n] = v
+		}
+	}
+	if len(payloads) != 7 {
+		r.Unk("proto/pmpx/codes", 0, "only %d of 7 Code_ constants found", len(payloads))
+		return
+	}
+	isMsg := func(v ssa.Value) bool { return typeIs(v.Type(), pkgPath("proto/pmpx"), "Message") }
+	// codeKnown: on every path to block b, Code() of message value m was compared equal to want
+	codeKnown := func(b *ssa.BasicBlock, m ssa.Value, want int64) bool {
+		isCodeOf := func(v ssa.Value) bool {
+			call, ok := v.(*ssa.Call)
+			if !ok {
+				return false
+			}
+			o := calleeObj(call)
+			if o == nil || o.Name() != "Code" {
+				return false
+			}
+			args := call.Call.Args
+			recv := call.Call.Value
+			if !call.Call.IsInvoke() && len(args) > 0 {
+				recv = args[0]
+			}
+			return recv == m
+		}
+		for _, alt := range backPaths(b, nil, 64) {
+			known := false
+			for _, cd := range alt {
+				for _, rel := range relsOf(cd) {
+					x, y := rel.X, rel.Y
+					if _, isK := x.(*ssa.Const); isK {
+						x, y = y, x
+					}
+					if k, isK := constInt(y); isK && rel.Op == token.EQL && k == want && isCodeOf(x) {
+						known = true
+					}
+				}
+			}
+			if !known {
+				return false
+			}
+		}
+		return true
+	}
+	var establishedAt func(fn *ssa.Function, at ssa.Instruction, m ssa.Value, want int64, depth int) bool
+	establishedAt = func(fn *ssa.Function, at ssa.Instruction, m ssa.Value, want int64, depth int) bool {
+		if codeKnown(at.Block(), m, want) {
+			return true
+		}
+		p, isParam := m.(*ssa.Parameter)
+		if !isParam || depth >= 2 || ast.IsExported(fn.Name()) {
+			return false
+		}
+		pi := paramIndex(fn, p)
+		n := 0
+		for _, g := range c.SrcFuncs("mpx") {
+			ok := true
+			withAnon(g, func(h *ssa.Function) {
+				for _, call := range callsIn(h, false) {
+					if call.Common().StaticCallee() != fn || pi >= len(call.Common().Args) {
+						continue
+					}
+					n++
+					if !establishedAt(h, call.(ssa.Instruction), call.Common().Args[pi], want, depth+1) {
+						ok = false
+					}
+				}
+			})
+			if !ok {
+				return false
+			}
+		}
+		return n > 0
+	}
+	n := 0
+	for _, fn := range c.SrcFuncs("mpx") {
+		cnt := map[string]int{}
+		for _, call := range callsIn(fn, false) {
+			o := calleeObj(call)
+			if o == nil {
+				continue
+			}
+			want, isPayload := payloads[o.Name()]
+			if !isPayload {
+				continue
+			}
+			args := call.Common().Args
+			recv := call.Common().Value
+			if !call.Common().IsInvoke() && len(args) > 0 {
+				recv = args[0]
+			}
+			if recv == nil || !isMsg(recv) {
+				continue
+			}
+			n++
+			cnt[o.Name()]++
+			key := fmt.Sprintf("%s/%s()#%d", fnKey(fn), o.Name(), cnt[o.Name()])
+			if establishedAt(fn, call.(ssa.Instruction), recv, want, 0) {
+				r.OK(key, call.Pos(), "read only with Code() == Code_%s established", o.Name())
+			} else {
+				r.Bad(key, call.Pos(), "the %s payload of a frame is read without the frame's Code() having been compared with Code_%s on every path: a peer can smuggle this payload under another frame code (a connect request inside a data frame completes the handshake)", o.Name(), o.Name())
+			}
+		}
+	}
+	if n == 0 {
+		r.Unk("mpx/payload-accessors", 0, "anchor lost: no payload accessor call found")
 	}
 }
 
